@@ -195,7 +195,7 @@ func shortFn(fn *ssa.Function) string {
 // teardownOrder: once-guard, closes before join, join before cleanup, cleanup contracts.
 func teardownOrder(c *Ctx, prop string) {
 	r := c.Roles()
-	g := paths.New(c.P, r.Stop, 0) // teardown itself, no inlining needed for order
+	g := paths.New(c.P, r.Stop, 2) // teardown with its helpers inlined
 	entry := []paths.Node{g.Entry()}
 	cas := nodeM(func(call ssa.CallInstruction) bool {
 		f := call.Common().StaticCallee()
@@ -295,16 +295,17 @@ func containsStr(s, sub string) bool {
 	return false
 }
 
-// unsubLoop: P4 for the loop that deregisters every filter of Session.Topics().
+// unsubLoop: P4 for the loop that deregisters every filter of Session.Topics(). The loop
+// (or its body) may live in a helper reached from fn through static calls.
 func unsubLoop(c *Ctx, fn *ssa.Function, where string) {
-	unsubs := c.calls(fn, pkgTopics, "Manager", "Unsubscribe")
+	unsubs := c.hostedCalls(fn, mMethod(pkgTopics, "Manager", "Unsubscribe"), 2)
 	if len(unsubs) == 0 {
 		c.R.Bad(ruleP4, where+":unsubscribe-loop", c.P.Pos(fn.Pos()), "no tree Unsubscribe call in teardown: the connection's subscriptions stay registered after it ended")
 		return
 	}
-	loops := ir.Loops(fn)
-	for _, u := range unsubs {
-		l := ir.InnermostLoop(loops, u.Block())
+	for _, h := range unsubs {
+		u := h.Call
+		l, at, above, below := h.hostLoop()
 		key := where + ":unsubscribe-loop"
 		if l == nil {
 			c.R.Bad(ruleP4, key, c.P.InstrPos(u), "tree Unsubscribe is not inside a loop over the session's filters")
@@ -312,7 +313,7 @@ func unsubLoop(c *Ctx, fn *ssa.Function, where string) {
 		}
 		var bad []string
 		// the loop ranges over result #0 of Session.Topics(): the index bound is len(extract #0)
-		if !rangesOverCallResult(l, func(call *ssa.Call) bool { return ir.IsMethod(call.Common(), pkgSessions, "Session", "Topics") }, 0) {
+		if !rangesOverCallResultVia(l, func(call *ssa.Call) bool { return ir.IsMethod(call.Common(), pkgSessions, "Session", "Topics") }, 0, above) {
 			bad = append(bad, "the loop does not range over the filter list returned by Session.Topics()")
 		}
 		// every path header -> back edge passes the Unsubscribe call; exits only from the header
@@ -321,13 +322,16 @@ func unsubLoop(c *Ctx, fn *ssa.Function, where string) {
 				bad = append(bad, fmt.Sprintf("the loop can be left from block %d (%s) before all filters are processed", e[0].Index, c.P.InstrPos(e[0].Instrs[len(e[0].Instrs)-1])))
 			}
 		}
-		if p := loopPathAvoiding(l, u); p != "" {
+		if p := loopPathAvoiding(l, at); p != "" {
 			bad = append(bad, "an iteration can reach the back edge without calling Unsubscribe ("+p+")")
+		}
+		if ok, hf := h.belowMustPass(below); !ok {
+			bad = append(bad, "helper "+hf.Name()+" can return without calling Unsubscribe")
 		}
 		// argument 1 derives from the loop element, argument 2 is the connection token
 		a := u.Common().Args
 		if len(a) >= 3 {
-			if !derivesFromLoopElement(a[1], l) {
+			if !derivesFromLoopElementVia(a[1], l, below) {
 				bad = append(bad, "the filter passed to Unsubscribe is not the loop's element")
 			}
 			if tok := tokenOf(a[2]); tok != "service.service.onpub" {
@@ -375,6 +379,12 @@ func tokenOf(v ssa.Value) string {
 // rangesOverCallResult: the loop is a range loop (index phi compared with len(x))
 // where x is result #idx of a call matched by m.
 func rangesOverCallResult(l *ir.Loop, m func(*ssa.Call) bool, idx int) bool {
+	return rangesOverCallResultVia(l, m, idx, nil)
+}
+
+// rangesOverCallResultVia: as rangesOverCallResult; when the ranged slice is a parameter of a
+// helper, it is resolved through the call sites `above` into the callers.
+func rangesOverCallResultVia(l *ir.Loop, m func(*ssa.Call) bool, idx int, above []ssa.CallInstruction) bool {
 	for _, in := range l.Header.Instrs {
 		iff, ok := in.(*ssa.If)
 		if !ok {
@@ -387,7 +397,7 @@ func rangesOverCallResult(l *ir.Loop, m func(*ssa.Call) bool, idx int) bool {
 		for _, side := range []ssa.Value{b.X, b.Y} {
 			if call, ok := side.(*ssa.Call); ok {
 				if bi, ok := call.Common().Value.(*ssa.Builtin); ok && bi.Name() == "len" {
-					src := ir.SeeThrough(call.Common().Args[0])
+					src, _ := resolveChain(call.Common().Args[0], above)
 					if ex, ok := src.(*ssa.Extract); ok && ex.Index == idx {
 						if c2, ok := ex.Tuple.(*ssa.Call); ok && m(c2) {
 							return true
@@ -428,8 +438,15 @@ func rangeSubject(l *ir.Loop) ssa.Value {
 // derivesFromLoopElement: v is computed from an element x[i] of the ranged slice
 // with i the loop's induction phi (through conversions / slicing).
 func derivesFromLoopElement(v ssa.Value, l *ir.Loop) bool {
+	return derivesFromLoopElementVia(v, l, nil)
+}
+
+// derivesFromLoopElementVia: v may be a value of a helper below the loop's function;
+// parameters are followed through the sites `below` (outermost first).
+func derivesFromLoopElementVia(v ssa.Value, l *ir.Loop, below []ssa.CallInstruction) bool {
 	subj := rangeSubject(l)
 	seen := map[ssa.Value]bool{}
+	level := len(below)
 	var walk func(v ssa.Value) bool
 	walk = func(v ssa.Value) bool {
 		if v == nil || seen[v] {
@@ -437,6 +454,18 @@ func derivesFromLoopElement(v ssa.Value, l *ir.Loop) bool {
 		}
 		seen[v] = true
 		switch x := v.(type) {
+		case *ssa.Parameter:
+			if level == 0 {
+				return false
+			}
+			site := below[level-1]
+			for i, q := range x.Parent().Params {
+				if q == x && !site.Common().IsInvoke() && i < len(site.Common().Args) {
+					level--
+					return walk(site.Common().Args[i])
+				}
+			}
+			return false
 		case *ssa.UnOp:
 			return walk(x.X)
 		case *ssa.IndexAddr:
